@@ -42,6 +42,8 @@ func main() {
 		genC02(cw, *seed, *tier)
 	case "c16":
 		genC16(cw, *seed, *tier)
+	case "c19":
+		genC19(cw, *seed, *tier)
 	case "c13":
 		genC13(cw, *seed, *tier)
 	case "c05":
